@@ -11,6 +11,7 @@ use jrpc_harness::common::*;
 use jrpc_harness::subs_env::*;
 
 fn main() {
+	install_quiet_panic_hook();
 	let a = args();
 	let mut out = Out::new();
 	let pf = Profile { check_c06: true, check_c04: false, w_accept: 6, w_send: 3, w_ret: 2, w_wstep: 5, typed_ids: 3, reuse_ids: 3, w_burst: 1, tail: true };
